@@ -64,6 +64,12 @@ TEXT = {
             "first) / flatten-unflatten / split-then-absolute-flatten; result content compared with the model image, "
             "inverse compositions restore content, rank ids and ==; results well-formed and rank-consistent; operand intact.",
             "Shapes<=4 per rank, <=10 points; linear flattening only with authoritative shapes."),
+    "C10": ("Hypothesis PBT: before/after snapshots, object-identity-set disjointness, follow-up mutation on both sides",
+            "Generated tensors / fibers x 32 value-returning operations (Tensor and Fiber forms) and 12 read-only operation "
+            "groups; operand snapshot, rank lists and attribute values compared before/after; id-sets of all reachable "
+            "fibers, lists, boxes, ranks, attribute objects of result and operand must be disjoint; every leaf box of the "
+            "result then of the operand is mutated and the other side re-checked; images rendered twice.",
+            "Aliasing demanded only of the listed operations; images rendered for a third of the image cases (cost)."),
     "C11": ("Exhaustive operator matrix + Hypothesis PBT on fiber pairs vs Python operators on the unboxed values",
             "All 131 cells of the operator x operand-kind matrix enumerated with a fixed value table and sampled with drawn "
             "ints / dyadic floats; result value and type, operand immutability, same-box identity for in-place forms; "
